@@ -228,9 +228,33 @@ def is_concrete(v, depth=0) -> bool:
     return True
 
 
+class ModelTable(dict):
+    """id(live callable) -> model.  Builtin methods bound to a class (dict.fromkeys, ...) are fresh objects on every
+    attribute access, so their ids are transient: they are keyed by (owner, name) instead, and every registered callable is
+    kept alive so that its id cannot be recycled by an unrelated object."""
+
+    def __init__(self):
+        super().__init__()
+        self.by_qual = {}
+        self.keepalive = []
+
+    def register(self, fn, model):
+        if isinstance(fn, pytypes.BuiltinFunctionType) and isinstance(getattr(fn, "__self__", None), type):
+            self.by_qual[(fn.__self__, fn.__name__)] = model
+            return
+        self.keepalive.append(fn)
+        self[id(fn)] = model
+
+    def lookup(self, fn):
+        m = self.get(id(fn))
+        if m is None and isinstance(fn, pytypes.BuiltinFunctionType) and isinstance(getattr(fn, "__self__", None), type):
+            m = self.by_qual.get((fn.__self__, fn.__name__))
+        return m
+
+
 class Interp:
     def __init__(self):
-        self.models: Dict[int, Any] = {}  # id(live callable) -> model(interp, *args, **kw)
+        self.models: Dict[int, Any] = ModelTable()  # id(live callable) -> model(interp, *args, **kw)
         self.models_by_name: Dict[str, Any] = {}
         self.contracts: Dict[int, Any] = {}  # id(live function) -> Contract (applied at call sites)
         self.inline_modules = ("pandera",)
@@ -285,7 +309,7 @@ class Interp:
             kw.update(kwargs)
             return self.call(fn.func, list(fn.args) + list(args), kw)
         # models first (live callables with a theory implementation)
-        m = self.models.get(id(fn))
+        m = self.models.lookup(fn)
         if m is None and inspect.ismethod(fn):
             m = self.models.get(id(fn.__func__))
             if m is not None:
